@@ -177,6 +177,9 @@ func (sc *Scanner) scanNumber(ch int, buf *bytes.Buffer) error {
 		if ch = sc.Peek(); ch == '-' || ch == '+' {
 			writeChar(buf, sc.Next())
 		}
+		if !isDecimal(sc.Peek()) {
+			return sc.Error(buf.String(), "malformed number")
+		}
 		sc.scanDecimal(sc.Next(), buf)
 	}
 
